@@ -187,10 +187,10 @@ def run(ctx):
                         "precondition decided by TLC on the normal run: <= 1 LIMIT/STOP execution per aligned window of "
                         "the trading timeframe, total_liquidations = 0, the normal run completes"]
     from ..drivers import simequiv as c12_model
-    fixed = c12_model.model_part(ctx)
+    variant = c12_model.model_part(ctx)
     ctx.log("M done: %d states" % ctx.coverage.get("states", 0))
     trace_part(ctx)
-    bad = c12_model.binding_part(ctx, fixed)
+    bad = c12_model.binding_part(ctx, variant)
     ctx.log("binding done: %d scenarios" % ctx.coverage.get("model_scenarios_replayed_on_code", 0))
     if bad:
         txt = ("SimCore.tla does not describe what a real simulator did on %d scenario(s) inside the antecedent and quantifier of "
